@@ -41,8 +41,11 @@ WRONG13_EXTRA = {
     "bool": [("tuple", {"K": "v"}), ("float", 0.5), ("nested-list", [[1]])],
     "datatype": [("tuple", {"K": "v"}), ("nested-list", [["Float"]]), ("float", 0.5)],
     "tuple": [("number", 5), ("nested-list", [[1]]), ("float", 0.5)],
-    "path_in": [("number", 5), ("list", ["in.csv"]), ("tuple", {"K": "v"}), ("float", 0.5)],
-    "path_out": [("number", 5), ("list", ["out.csv"]), ("tuple", {"K": "v"})],
+    "path_in": [("number", 5), ("list", ["in.csv"]), ("tuple", {"K": "v"}), ("float", 0.5),
+                ("tilde-user", "~nosuchuser_zz/data.csv"), ("tilde", "~/nofile.csv"), ("long-name", "x" * 300 + ".csv"),
+                ("dollar", "$HOME/in.csv"), ("percent", "%TEMP%/in.csv")],
+    "path_out": [("number", 5), ("list", ["out.csv"]), ("tuple", {"K": "v"}), ("tilde-user", "~nosuchuser_zz/out.csv"),
+                 ("long-name", "y" * 300 + ".csv")],
     "string": [("nested-list", [["a"]]), ("number", 5)],
 }
 
